@@ -66,6 +66,42 @@ macro_rules! frame_ok {
     };
 }
 
+/// same claim through the slice entry point only (smaller query for wide CRCs / composite values)
+macro_rules! frame_ok_slice {
+    ($name:ident, $ty:ty, $w:ty, $crc:ident, $oracle:expr, $to_slice:ident, $take:ident, $cap:literal, $unwind:literal) => {
+        #[kani::proof]
+        #[kani::unwind($unwind)]
+        fn $name() {
+            const W: usize = core::mem::size_of::<$w>();
+            let v: $ty = kani::any();
+            let mut pb = [0u8; $cap];
+            let plain = postcard::to_slice(&v, &mut pb).unwrap();
+            let n = plain.len();
+            let mut fb = [0u8; $cap + W + 1];
+            let flen = postcard::ser_flavors::crc::$to_slice(&v, &mut fb[..$cap + W], $crc.digest()).unwrap().len();
+            assert!(flen == n + W, "framed length is not plain + width");
+            let mut i = 0;
+            while i < n {
+                assert!(fb[i] == plain[i], "payload bytes differ from the plain encoding");
+                i += 1;
+            }
+            let want: $w = ($oracle)(plain);
+            let wb = want.to_le_bytes();
+            let mut i = 0;
+            while i < W {
+                assert!(fb[n + i] == wb[i], "checksum bytes are not the little-endian checksum of the plain encoding");
+                i += 1;
+            }
+            let tail: u8 = kani::any();
+            fb[flen] = tail;
+            let (back, rest): ($ty, &[u8]) = postcard::de_flavors::crc::$take(&fb[..flen + 1], $crc.digest()).unwrap();
+            assert!(back == v);
+            assert!(rest.len() == 1 && rest[0] == tail);
+            kani::cover!(n == $cap, "longest payload reachable");
+        }
+    };
+}
+
 //@ tier=quick class=core cap=900 bounds="all u16 values, CRC-8/SMBUS vs bitwise reference; slice/heapless/alloc storages; decode back with 1-byte tail"
 frame_ok!(c10_frame_u8_u16, u16, u8, C8, |p: &[u8]| crc_bitwise(&CRC_8_SMBUS, p) as u8, to_slice_u8, to_vec_u8, to_allocvec_u8, take_from_bytes_u8, from_bytes_u8, 3, 12);
 //@ tier=quick class=core cap=900 bounds="all u16 values, CRC-16/IBM-SDLC vs bitwise reference"
@@ -80,12 +116,12 @@ frame_ok!(c10_frame_u16x_u16, u16, u16, C16X, |p: &[u8]| crc_bitwise(&CRC_16_XMO
 frame_ok!(c10_frame_u64_u16, u16, u64, C64, |p: &[u8]| crc_bitwise(&CRC_64_ECMA_182, p), to_slice_u64, to_vec_u64, to_allocvec_u64, take_from_bytes_u64, from_bytes_u64, 3, 14);
 //@ tier=thorough class=core cap=1800 bounds="all u16 values, CRC-64/XZ (reflected) vs bitwise reference"
 frame_ok!(c10_frame_u64x_u16, u16, u64, C64X, |p: &[u8]| crc_bitwise(&CRC_64_XZ, p), to_slice_u64, to_vec_u64, to_allocvec_u64, take_from_bytes_u64, from_bytes_u64, 3, 14);
-//@ tier=quick class=core cap=1800 bounds="all u16 values, 128-bit width (CRC-82/DARC); oracle = crc crate's one-shot checksum()"
-frame_ok!(c10_frame_u128_u16, u16, u128, C128, |p: &[u8]| C128.checksum(p), to_slice_u128, to_vec_u128, to_allocvec_u128, take_from_bytes_u128, from_bytes_u128, 3, 22);
-//@ tier=thorough class=core cap=2400 bounds="all Named values, CRC-32/ISCSI vs bitwise reference"
-frame_ok!(c10_frame_u32_named, Named, u32, C32, |p: &[u8]| crc_bitwise(&CRC_32_ISCSI, p) as u32, to_slice_u32, to_vec_u32, to_allocvec_u32, take_from_bytes_u32, from_bytes_u32, 9, 16);
-//@ tier=thorough class=core cap=2400 bounds="all Named values, CRC-16/IBM-SDLC vs bitwise reference"
-frame_ok!(c10_frame_u16_named, Named, u16, C16, |p: &[u8]| crc_bitwise(&CRC_16_IBM_SDLC, p) as u16, to_slice_u16, to_vec_u16, to_allocvec_u16, take_from_bytes_u16, from_bytes_u16, 9, 16);
+//@ tier=quick class=core cap=1800 bounds="all u8 values, 128-bit width (CRC-82/DARC), slice entry point; oracle = crc crate's one-shot checksum()"
+frame_ok_slice!(c10_frame_u128_u8, u8, u128, C128, |p: &[u8]| C128.checksum(p), to_slice_u128, take_from_bytes_u128, 1, 20);
+//@ tier=thorough class=core cap=2400 bounds="all Named values, CRC-32/ISCSI vs bitwise reference, slice entry point" class=best
+frame_ok_slice!(c10_frame_u32_named, Named, u32, C32, |p: &[u8]| crc_bitwise(&CRC_32_ISCSI, p) as u32, to_slice_u32, take_from_bytes_u32, 9, 16);
+//@ tier=thorough class=core cap=2400 bounds="all Named values, CRC-16/IBM-SDLC vs bitwise reference, slice entry point" class=best
+frame_ok_slice!(c10_frame_u16_named, Named, u16, C16, |p: &[u8]| crc_bitwise(&CRC_16_IBM_SDLC, p) as u16, to_slice_u16, take_from_bytes_u16, 9, 16);
 
 /// byte array payload (multi-byte take on the decoding side => digest must cover try_take_n)
 #[derive(Serialize, Deserialize, PartialEq)]
@@ -138,7 +174,7 @@ accept_implies_checksum!(c10_accept_u128_u8, u8, u128, C128, |p: &[u8]| C128.che
 /// (iii) bursts: a frame of a symbolic fixed-length payload, XORed with a non-zero error pattern of
 /// span <= width confined to the payload, must be rejected.
 macro_rules! burst {
-    ($name:ident, $w:ty, $crc:ident, $to_slice:ident, $from:ident, $plen:literal, $unwind:literal) => {
+    ($name:ident, $w:ty, $crc:ident, $to_slice:ident, $from:ident, $plen:literal, $unwind:literal, $reflected:literal) => {
         #[kani::proof]
         #[kani::unwind($unwind)]
         fn $name() {
@@ -152,12 +188,18 @@ macro_rules! burst {
             kani::assume(pat != 0);
             let off: u32 = kani::any();
             kani::assume(off < ($plen * 8) as u32);
+            // `wide` is the error pattern in TRANSMISSION order: bit p of `wide` is the p-th bit on the wire.
+            // A reflected (LSB-first) CRC sends bit j of byte k at position 8k+j; an MSB-first CRC sends it
+            // at 8k+(7-j), so there each mask byte is bit-reversed.  (A burst is contiguous on the wire, not
+            // in the little-endian integer - getting this wrong makes the harness flag undetectable 16-bit
+            // bursts under CRC-8/SMBUS; that was a harness error, see DESIGN.md §8.)
             let wide: u128 = (pat as u128) << off;
             // confined to the payload
-            kani::assume($plen * 8 == 128 || (wide >> ($plen * 8)) == 0);
+            kani::assume((wide >> ($plen * 8)) == 0);
             let mut i = 0;
             while i < $plen {
-                fb[i] ^= (wide >> (8 * i)) as u8;
+                let m = (wide >> (8 * i)) as u8;
+                fb[i] ^= if $reflected { m } else { m.reverse_bits() };
                 i += 1;
             }
             let r: postcard::Result<[u8; $plen]> = postcard::de_flavors::crc::$from(&fb, $crc.digest());
@@ -167,15 +209,17 @@ macro_rules! burst {
     };
 }
 //@ tier=quick class=core cap=900 bounds="2-byte payload x every non-zero burst of span <= 8 bits at every bit offset, CRC-8/SMBUS"
-burst!(c10_burst_u8, u8, C8, to_slice_u8, from_bytes_u8, 2, 12);
+burst!(c10_burst_u8, u8, C8, to_slice_u8, from_bytes_u8, 2, 12, false);
 //@ tier=quick class=core cap=900 bounds="2-byte payload x every non-zero 16-bit error pattern, CRC-16/IBM-SDLC"
-burst!(c10_burst_u16, u16, C16, to_slice_u16, from_bytes_u16, 2, 12);
+burst!(c10_burst_u16, u16, C16, to_slice_u16, from_bytes_u16, 2, 12, true);
 //@ tier=thorough class=core cap=2400 bounds="3-byte payload x every burst of span <= 16 bits at every offset, CRC-16/IBM-SDLC"
-burst!(c10_burst_u16_p3, u16, C16, to_slice_u16, from_bytes_u16, 3, 12);
+burst!(c10_burst_u16_p3, u16, C16, to_slice_u16, from_bytes_u16, 3, 12, true);
 //@ tier=thorough class=core cap=3600 bounds="3-byte payload x every non-zero error pattern (<= 24 bits), CRC-32/ISCSI"
-burst!(c10_burst_u32, u32, C32, to_slice_u32, from_bytes_u32, 3, 12);
+burst!(c10_burst_u32, u32, C32, to_slice_u32, from_bytes_u32, 3, 12, true);
+//@ tier=thorough class=core cap=2400 bounds="2-byte payload x every burst of span <= 16 bits, CRC-16/XMODEM (MSB-first)"
+burst!(c10_burst_u16x, u16, C16X, to_slice_u16, from_bytes_u16, 2, 12, false);
 //@ tier=thorough class=core cap=3600 bounds="2-byte payload x every non-zero error pattern, CRC-64/XZ"
-burst!(c10_burst_u64, u64, C64X, to_slice_u64, from_bytes_u64, 2, 14);
+burst!(c10_burst_u64, u64, C64X, to_slice_u64, from_bytes_u64, 2, 14, true);
 
 /// corruption confined to the checksum is always rejected (direct form of the converse)
 #[kani::proof]
